@@ -329,6 +329,45 @@ def functions_stream(ctx):
             ctx.sample({"functions_stream": q, "functions_map": which, "assignment": asg})
 
 
+def boundary_stream(ctx):
+    """assigned values that are exact constants but not representable in 15 digits (rationals written as strings, sums of
+    them), read by expressions that are discontinuous exactly there: floor(k*n) and ceiling(k*n) at n = j/k.  Replacing the input
+    by its VALUE gives 2*j; replacing it by a rounded value does not."""
+    rng = ctx.rng
+    for k in (3, 6, 7, 9, 11, 13):
+        q = {"name": "root", "input_params": ["N", "M"], "linked_params": [{"source": "N", "targets": ["a.n"]}],
+             "resources": [{"name": "S", "type": "other", "value": f"floor({k}*N + M)"}],
+             "children": [{"name": "a", "input_params": ["n"],
+                           "resources": [{"name": "T", "type": "additive", "value": f"floor({k}*n) + ceiling({k}*n)"}]}]}
+        st, r = try_compile(q)
+        ctx.stats["evaluations"] += 1
+        if st != "ok":
+            ctx.stats["boundary_stream_compile_" + st] += 1
+            continue
+        for j in range(1, 2 * k + 1):
+            if j % k == 0:
+                continue
+            for how in ("string", "staged", "sum"):
+                val = f"{j}/{k}" if how != "sum" else f"{j - 1}/{k} + 1/{k}"
+                try:
+                    if how == "staged":
+                        ev = evaluate(evaluate(r.routine, {"N": val}).routine, {"M": 2}).routine
+                    else:
+                        ev = evaluate(r.routine, {"N": val, "M": 2}).routine
+                except Exception as e:
+                    ctx.stats["boundary_stream_raised_" + type(e).__name__] += 1
+                    continue
+                ctx.stats["boundary_stream_cases"] += 1
+                got_t = ev.children["a"].resources["T"].value
+                got_s = ev.resources["S"].value
+                if got_t != 2 * j or got_s != j + 2:
+                    ctx.violation("failing-input", f"an input assigned the exact constant {val} is not replaced by its value: floor/ceiling at the boundary k*n = {j} give a neighbouring integer",
+                                  {"qref": q, "assignments_in_order": [["N", val], ["M", 2]], "staged": how == "staged"},
+                                  {"a.T": str(got_t), "root.S": str(got_s)}, {"a.T": 2 * j, "root.S": j + 2})
+                    return
+                ctx.nontrivial(("boundary", k, j, how))
+
+
 def run(ctx, widen=False):
     n = ctx.n(300, 8000) * (3 if widen else 1)
     ctx.notes.append(PARTIAL_NOTE)
@@ -338,6 +377,7 @@ def run(ctx, widen=False):
     base = ctx.seed * 1000003 + 5500000
     pipeline.run_stream(ctx, __name__, range(base, base + n), use_model=False)
     functions_stream(ctx)
+    boundary_stream(ctx)
     corpus(ctx)
 
 
